@@ -1,7 +1,7 @@
 #!/bin/sh
 # tools/seedverify.sh <id> : confirm a seeded change in its scratch worktree: patch == worktree diff, builds, test suite green,
 # demo FAILS with the change and PASSES against the pristine build (/tmp/pristine/build)
-id=$1; wt=/tmp/wt_$id; sd=/tmp/seed_$id
+id=$1; wt=/tmp/wt${SEEDGEN:-}_$id; sd=/tmp/seed${SEEDGEN:-}_$id
 cd $wt || exit 2
 git diff > /tmp/sv_$id.diff; if ! diff -q /tmp/sv_$id.diff $sd/patch.diff >/dev/null; then echo "NOTE: worktree diff differs from patch.diff; resetting worktree to patch"; git checkout -- . && git apply $sd/patch.diff || exit 2; fi
 git -C /repo apply --check $sd/patch.diff && echo "patch applies to /repo: yes" || echo "patch applies to /repo: NO"
